@@ -1070,6 +1070,7 @@ func init() {
 		Rules: []RuleDef{
 			{Name: "TAG-VIEWS", What: "for @HD/@SQ/@RG/@PG: the field String prints under a tag is the field the line parser fills for that tag (raw text for string fields), and Get/Set/Tags mean the same field; user-defined tags kept and printed", Floor: 100, Run: ruleTagViews},
 			{Name: "REFLINE-FIELDS", What: "sam.referenceLine installs the reference built from an @SQ line in the header – appended, or in place of a held one – only after it has seen both SN and LN (added for a defect of the unchanged tree, repaired 8e75300)", Floor: 1, Run: ruleReflineFields},
+			{Name: "NAME-STORE", What: "the key of a header's name table – Reference.name, ReadGroup.name, Program.uid – is written only into an object made in the same function or together with the owner's table (on every path: owner nil, or the table entry for the new name made): who-may-write, every store in package sam (added for a defect of the unchanged tree, repaired 6ed78f3: Set(SN)/Set(ID) bypassed SetName)", Floor: 6, Run: ruleNameStore},
 			{Name: "COUPLED-HEADER", What: "every insertion, adoption, replacement, removal, renumbering and renaming of a header item keeps owner, id = index and the name table in step; id/owner are assigned only in reviewed functions; Remove* guards test the container they splice", Floor: 60, Run: ruleCoupledHeader},
 			{Name: "FRESH-LINKS", What: "MergeHeaders: each source gets its own link slice; each link is owned by the merged header", Floor: 3, Run: ruleFreshLinks},
 			{Name: "MERGE-KEEPS", What: "AddReference's merge of a compatible duplicate overwrites a field only with the duplicate's non-empty value; the @CO parser keeps the whole remainder of the line", Floor: 5, Run: ruleMergeKeeps},
